@@ -397,7 +397,14 @@ func rrCase[R any](t *rapid.T, withResult bool) {
 					}
 					return
 				}
-				ch, cancel, err := requestreply.SendWithReplies[R](context.Background(), bus, backend, &Cmd{ID: id})
+				// the caller's context may carry a (much later) deadline of its own: the configured timeout applies all the same
+				callerCtx := context.Background()
+				if i%2 == 1 {
+					var cancelFar context.CancelFunc
+					callerCtx, cancelFar = context.WithTimeout(context.Background(), time.Hour)
+					defer cancelFar()
+				}
+				ch, cancel, err := requestreply.SendWithReplies[R](callerCtx, bus, backend, &Cmd{ID: id})
 				if err != nil {
 					bad("SendWithReplies for %s failed: %v", id, err)
 					return
